@@ -112,6 +112,7 @@ def run(F, rep, tier):
     model.rule_L7(rep, M)
     model.rule_exact(rep, M)
     model.rule_L3(rep, M, sibs=("from",))
+    model.rule_L2(rep, M)   # absent characters are padded in every live column, or later rows shift against the others
     model.rule_gate_consistent(rep, M, sibs=("write",))
     writer_headers_rule(F, rep, M)
     raw_blocks_rule(F, rep)
